@@ -38,7 +38,7 @@ def _is_attr_dict(ctx, arg, fi, val, depth=0):
             b = t.bind_args(g_, arg)
             pn = [k for k, v in b.items() if norm(v) == val]
             rets = [r.value for r in t.nodes_in(g_, ast.Return) if r.value is not None and not (isinstance(r.value, ast.Constant) and r.value.value is None)]
-            return len(pn) == 1 and bool(rets) and all(norm(r) == "%s.__dict__" % pn[0] for r in rets)
+            return len(pn) == 1 and bool(rets) and all(_is_attr_dict(ctx, r, g_, pn[0], depth + 1) for r in rets)
     return False
 
 
@@ -74,8 +74,11 @@ def run(ctx: Ctx, tier: str) -> Result:
         "file_name": lambda v: v == ["%s.f_code.co_filename" % F],
         "method_name": lambda v: v == ["%s.f_code.co_name" % F],
         "line_number": lambda v: v == ["%s.f_lineno" % F],
-        "short_path": lambda v: len(v) == 1 and v[0].endswith("parse_short_name(%s.f_code.co_filename)[0]" % F),
-        "app_frame": lambda v: len(v) == 1 and v[0].endswith("parse_short_name(%s.f_code.co_filename)[1]" % F),
+        # (what parse_short_name / is_app_frame compute is C19.FRAME's business; here: computed from this frame's file name)
+        "short_path": lambda v: bool(v) and all((x.endswith("parse_short_name(%s.f_code.co_filename)[0]" % F)) or
+                                                (x.startswith("%s.f_code.co_filename" % F) and ("is_app_frame(%s.f_code.co_filename)" % F in x or x == "%s.f_code.co_filename" % F))
+                                                for x in v),
+        "app_frame": lambda v: len(v) == 1 and (v[0].endswith("parse_short_name(%s.f_code.co_filename)[1]" % F) or v[0].endswith("is_app_frame(%s.f_code.co_filename)[0]" % F)),
         "class_name": lambda v: sorted(v) in (sorted(["None", "%s.f_locals.get('self', None).__class__.__name__" % F]),
                                               sorted(["None", "type(%s.f_locals.get('self', None)).__name__" % F]),
                                               sorted(["None", "type(%s.f_locals.get('self')).__name__" % F])),
@@ -96,7 +99,10 @@ def run(ctx: Ctx, tier: str) -> Result:
         cs_ = [(ctx.expand.expand(c, pf), pol) for c, pol in paths.enclosing_conditions(p, n, pf)]
         want_ = "%s.f_locals.get('self', None) is not None" % F
         want2_ = "%s.f_locals.get('self') is not None" % F
-        if len(cs_) == 1 and cs_[0][1] and cs_[0][0] and cs_[0][0][0] in (want_, want2_):
+        neg_ = (want_.replace(" is not None", " is None"), want2_.replace(" is not None", " is None"))
+        cs_all = [(ctx.expand.expand(c, pf), pol) for c, pol in paths.conditions(p, n, pf)]
+        if (len(cs_) == 1 and cs_[0][1] and cs_[0][0] and cs_[0][0][0] in (want_, want2_)) or \
+                (len(cs_all) == 1 and not cs_all[0][1] and cs_all[0][0] and cs_all[0][0][0] in neg_):
             res.ok("C02.FRAME", {"class named when the frame has a self": pf.loc(n)})
         elif isinstance(n.value, ast.IfExp) or not cs_:
             pass            # conditional expression / helper forms are covered by the value expectation above
@@ -188,6 +194,11 @@ def run(ctx: Ctx, tier: str) -> Result:
         ia = ctx.expand.expand(t.bind_args(pf, calls[0]).get(pf.params[4]), col)
         if len(ia) == 1 and "should_collect_vars(len(" in ia[0]:
             inner = t.bind_args(pf, calls[0]).get(pf.params[4])
+            if isinstance(inner, ast.Name):
+                # a local holding the decision, assigned once in the same loop iteration
+                bs_ = [b for k, b in t.local_bindings(col, inner.id) if k == "assign"]
+                if len(bs_) == 1 and bs_[0][1] is not None and paths.enclosing_loops(p, bs_[0][1], col) == paths.enclosing_loops(p, calls[0], col):
+                    inner = bs_[0][1]
             larg = inner.args[0] if isinstance(inner, ast.Call) and inner.args else None
             if isinstance(larg, ast.Call) and norm(larg.func) == "len" and apps and norm(larg.args[0]) == norm(apps[0].func.value):
                 res.ok("C02.TYPE", {"frame index": norm(larg)})
@@ -419,4 +430,6 @@ def run(ctx: Ctx, tier: str) -> Result:
                                  "%s of `%s`, a value of the traced program of any type: what is collected then depends on the "
                                  "object's __bool__/__len__ instead of its type (a falsy object with attributes is recorded differently)" % (
                                      op.kind, norm(op.subject)[:60])))
+    from .common import borrow
+    borrow(ctx, res, tier, "c19", ("C19.FRAME",), "C02.PATH", "app-frame flag and shortened path per configuration (exclusion wins; exactly the matched prefix removed)")
     return res
